@@ -13,6 +13,10 @@ Decided:
          de-duplicates with ``not in`` keeping the first occurrence; set_error_handler wraps before the
          middleware loop (innermost); _safe_wrap_wsgi returns the inner callable untouched when there is no
          wrapper and validates the wrapped callable's first two parameter names;
+  R13.e  the entry point only grows: ``self._dispatch_wsgi`` is written only by methods of the application class, only
+         with a wrapping of its current value, and is never deleted / replaced through any spelling (``del``,
+         ``setattr`` / ``delattr``, ``__dict__`` / ``vars()`` item stores, ``pop``, ``update``, ``clear`` ...) anywhere
+         in the analysed tree (c13_entry.py): a later ``set_error_handler`` / ``add`` cannot un-wrap the application;
   R13.c  files are handed to the response: in build_file_response the object returned by open() is
          passed to file_wrapper(...) and stored as resp.response on the success path;
          StaticFileRoute.__init__'s probe open(...) is closed in the same statement.
@@ -22,7 +26,9 @@ The constructs are recognised by role, not by spelling: a callee / an iterable /
 single assignment is looked through; the reversal may be ``reversed(x)`` or ``x[::-1]``; the de-duplicating walk may be
 two nested loops, one loop over ``chain.from_iterable(...)`` / a flattening comprehension, with the membership test as
 an ``if`` around the append or as a ``continue`` guard; a wrapping loop extracted into a method of the class is followed
-from its call in ``__init__``.
+from its call in ``__init__``; the wrapping itself may be a loop storing into the attribute, a loop accumulating in a
+local that is stored afterwards, or a ``functools.reduce`` over a step function ``(inner, mw) -> _safe_wrap_wsgi(.., mw,
+inner)`` (see ``WrapPlan``).
 """
 import ast
 import copy
@@ -194,21 +200,39 @@ def reversal_of(expr):
     return None
 
 
+def slot_store(s, slot='_dispatch_wsgi'):
+    """Value expression a statement stores into ``self.<slot>``: a plain assignment, or ``setattr(self, '<slot>', v)`` as
+    a statement of its own -- else None."""
+    if isinstance(s, ast.Assign) and any(norm(t) == 'self.' + slot for t in s.targets):
+        return s.value
+    if isinstance(s, ast.Expr) and isinstance(s.value, ast.Call) and isinstance(s.value.func, ast.Name) and s.value.func.id == 'setattr' and \
+            len(s.value.args) == 3 and not s.value.keywords and norm(s.value.args[0]) == 'self' and \
+            isinstance(s.value.args[1], ast.Constant) and s.value.args[1].value == slot:
+        return s.value.args[2]
+    return None
+
+
+def through_temps(fi, v):
+    """``v`` with single-assignment locals looked through: (value, [the temporaries' assignment statements])."""
+    temps, d = [], 0
+    while isinstance(v, ast.Name) and d < 4:
+        vals = [x for x in assigned_value(fi.node, v.id)]
+        if len(vals) != 1 or vals[0][2] is not None or v.id in fi.params() or not isinstance(vals[0][0], ast.Assign):
+            break
+        temps.append(vals[0][0])
+        v, d = vals[0][1], d + 1
+    return v, temps
+
+
 def wrap_stores(fi, within=None):
     """Stores ``self._dispatch_wsgi = _safe_wrap_wsgi(a, b, c)`` in fi (optionally inside statement ``within``), the call
     possibly named by a temporary first: [(store statement, call, temporaries' assignments)]."""
     out = []
     pool = stmts_of(fi.node) if within is None else [s for s in ast.walk(within) if isinstance(s, ast.stmt)]
     for s in pool:
-        if isinstance(s, ast.Assign) and any(norm(t) == 'self._dispatch_wsgi' for t in s.targets):
-            v, temps = s.value, []
-            d = 0
-            while isinstance(v, ast.Name) and d < 4:
-                vals = [x for x in assigned_value(fi.node, v.id)]
-                if len(vals) != 1 or vals[0][2] is not None or v.id in fi.params():
-                    break
-                temps.append(vals[0][0])
-                v, d = vals[0][1], d + 1
+        v = slot_store(s)
+        if v is not None:
+            v, temps = through_temps(fi, v)
             out.append((s, v if isinstance(v, ast.Call) and call_name(v) == '_safe_wrap_wsgi' else None, temps))
     return out
 
@@ -222,18 +246,56 @@ def wrap_args(app, call):
     return out if all(x is not None for x in out) else None
 
 
-def current_stack_arg(fi, expr, store):
+def _slot_rebinders(fi, view):
+    """Methods of the class that can re-bind / remove the entry slot (by any spelling) -- or write an attribute under a
+    name the text does not fix."""
+    out = set()
+    for n, m in (fi.cls.methods.items() if fi.cls is not None else []):
+        if view.touches_under(m, m.node) or any(isinstance(x, ast.Call) and isinstance(x.func, ast.Name) and x.func.id in ('setattr', 'delattr')
+                                                for x in walk_body(m.node)):
+            out.add(n)
+    return out
+
+
+def slot_untouched_between(fi, a_nodes, s_nodes, slot='_dispatch_wsgi'):
+    """No statement that can run after a node of ``a_nodes`` and before the next node of ``s_nodes`` re-binds or removes
+    ``self.<slot>``: an attribute store / ``del``, ``setattr`` / ``delattr``, the ``__dict__`` / ``vars()`` spellings, or
+    a call of a method of the class that does one of these."""
+    from .c13_entry import EntryView
+    view = EntryView(fi.mod.repo, slot)
+    cfg = cfg_of(fi)
+    between = (cfg.reach([m for n in a_nodes for m in cfg.succ[n]], avoid=s_nodes) & cfg.coreach(s_nodes, avoid=a_nodes)) - set(s_nodes) - set(a_nodes)
+    rebinders = _slot_rebinders(fi, view)
+    for nd in cfg.nodes:
+        if nd.id not in between or nd.stmt is None:
+            continue
+        hosts = [nd.stmt] if not hasattr(nd.stmt, 'body') else [getattr(nd.stmt, f) for f in ('test', 'iter') if isinstance(getattr(nd.stmt, f, None), ast.AST)] + \
+            [i.context_expr for i in getattr(nd.stmt, 'items', [])]
+        for h in hosts:
+            if view.touches_under(fi, h):
+                return False
+            for x in ast.walk(h):
+                if isinstance(x, ast.Call) and isinstance(x.func, ast.Name) and x.func.id in ('setattr', 'delattr'):
+                    return False
+                if isinstance(x, ast.Call) and isinstance(x.func, ast.Attribute) and isinstance(x.func.value, ast.Name) and \
+                        x.func.value.id == 'self' and x.func.attr in rebinders:
+                    return False
+    return True
+
+
+def current_stack_arg(fi, expr, store, slot='_dispatch_wsgi'):
     """Does ``expr`` -- the ``inner`` argument of the wrapping call whose result statement ``store`` puts into
     ``self._dispatch_wsgi`` -- denote the stack as it is at that moment?  Either the attribute itself, or a local whose
     single binding ``x = self._dispatch_wsgi`` is executed before every execution of the store with nothing in between
-    that can re-bind the attribute (a store to it, a ``setattr``, a call of a method of the class that stores it).
+    that can re-bind the attribute (a store to it, a ``setattr``, a ``__dict__`` spelling, a call of a method of the
+    class that does so).
     -> list of the temporaries' statements ([] for the attribute itself), or None."""
-    if norm(expr) == 'self._dispatch_wsgi':
+    if norm(expr) == 'self.' + slot:
         return []
     if not isinstance(expr, ast.Name) or expr.id in fi.params():
         return None
     vals = assigned_value(fi.node, expr.id)
-    if len(vals) != 1 or vals[0][2] is not None or not isinstance(vals[0][0], ast.Assign) or norm(vals[0][1]) != 'self._dispatch_wsgi':
+    if len(vals) != 1 or vals[0][2] is not None or not isinstance(vals[0][0], ast.Assign) or norm(vals[0][1]) != 'self.' + slot:
         return None
     asg = vals[0][0]
     cfg = cfg_of(fi)
@@ -243,24 +305,8 @@ def current_stack_arg(fi, expr, store):
     after_store = [m for n in s_nodes for m in cfg.succ[n]]
     if not cfg.must_pass(a_nodes, cfg.entry, s_nodes) or (s_nodes & cfg.reach(after_store, avoid=a_nodes)):
         return None          # the store can run (again) without the local having been (re-)read
-    between = (cfg.reach([m for n in a_nodes for m in cfg.succ[n]], avoid=s_nodes) & cfg.coreach(s_nodes, avoid=a_nodes)) - s_nodes - a_nodes
-    rebinders = set(n for n, m in (fi.cls.methods.items() if fi.cls is not None else []) if any(
-        (isinstance(x, ast.Attribute) and x.attr == '_dispatch_wsgi' and isinstance(x.ctx, (ast.Store, ast.Del))) or
-        (isinstance(x, ast.Call) and isinstance(x.func, ast.Name) and x.func.id in ('setattr', 'delattr')) for x in ast.walk(m.node)))
-    for nd in cfg.nodes:
-        if nd.id not in between or nd.stmt is None:
-            continue
-        hosts = [nd.stmt] if not hasattr(nd.stmt, 'body') else [getattr(nd.stmt, f) for f in ('test', 'iter') if isinstance(getattr(nd.stmt, f, None), ast.AST)] + \
-            [i.context_expr for i in getattr(nd.stmt, 'items', [])]
-        for h in hosts:
-            for x in ast.walk(h):
-                if isinstance(x, ast.Attribute) and x.attr == '_dispatch_wsgi' and isinstance(x.ctx, (ast.Store, ast.Del)):
-                    return None
-                if isinstance(x, ast.Call) and isinstance(x.func, ast.Name) and x.func.id in ('setattr', 'delattr'):
-                    return None
-                if isinstance(x, ast.Call) and isinstance(x.func, ast.Attribute) and isinstance(x.func.value, ast.Name) and \
-                        x.func.value.id == 'self' and x.func.attr in rebinders:
-                    return None
+    if not slot_untouched_between(fi, a_nodes, s_nodes, slot):
+        return None
     return [asg]
 
 
@@ -423,81 +469,230 @@ def _wrap_loops(fi):
 
 
 def find_wrap_loop(app, ai):
-    """The loop that applies the middlewares' wrappers: in __init__ itself, or in a method of the class that __init__
-    calls as ``self.m(...)``.  -> (function holding the loop, loop, statement of __init__ at which it runs,
-    {parameter of that function: argument expression in __init__})"""
-    loops = _wrap_loops(ai)
-    if loops:
-        return ai, loops, loops[0], {}
-    found = []
-    for c in walk_body(ai.node):
-        if isinstance(c, ast.Call) and isinstance(c.func, ast.Attribute) and isinstance(c.func.value, ast.Name) and c.func.value.id == 'self' \
-                and ai.cls is not None and c.func.attr in ai.cls.methods and c.func.attr != 'set_error_handler':
-            m = ai.cls.methods[c.func.attr]
-            ls = _wrap_loops(m)
-            if ls:
-                ps = m.params()[1:]
-                if any(isinstance(a, ast.Starred) for a in c.args) or any(k.arg is None for k in c.keywords):
-                    raise AnalysisError('wrapping helper %s is called with */** arguments' % m.qualname)
-                env = dict(zip(ps, c.args))
-                for k in c.keywords:
-                    env[k.arg] = k.value
-                found.append((m, ls, stmt_of(app, c), env))
-    if len(found) == 1:
-        return found[0]
-    if not found:
+    """(kept for callers that only need the loop form) -> (function holding the loop, [loop], statement of __init__ at which
+    it runs, {parameter of that function: argument expression in __init__})"""
+    plan = wrap_plan(app, ai)
+    return plan.fn, [plan.node], plan.site, plan.env
+
+
+# -- the shapes in which the middlewares' wrappers are applied -----------------------------------------------------------
+class WrapPlan(object):
+    """How the constructor applies the middlewares' WSGI wrappers to the entry point.
+      form       'loop'        for mw in ITER: self.slot = _safe_wrap_wsgi(.., mw, self.slot)
+                 'accumulate'  acc = self.slot; for mw in ITER: acc = _safe_wrap_wsgi(.., mw, acc); self.slot = acc
+                 'reduce'      self.slot = functools.reduce(step, ITER, self.slot), step(inner, mw) = _safe_wrap_wsgi(.., mw, inner)
+      fn         the function holding the construct (``__init__`` or a method it calls), ``env``: that method's parameters
+      node       the loop / the reduce statement; ``site``: the statement of ``__init__`` at which it runs
+      iter       the iterable expression (in ``fn``)
+      each_once  every element is wrapped exactly once, as the source, around the then-current stack
+      stores     the statements that store into the slot"""
+    __slots__ = ('fn', 'form', 'node', 'iter', 'site', 'env', 'each_once', 'stores')
+
+    def __init__(self, fn, form, node, it, each_once, stores):
+        self.fn, self.form, self.node, self.iter, self.each_once, self.stores = fn, form, node, it, each_once, stores
+        self.site, self.env = node, {}
+
+
+def reduce_call(fi, v):
+    """(step, iterable, initial) of ``functools.reduce(step, iterable, initial)`` -- else None."""
+    if not isinstance(v, ast.Call) or v.keywords or len(v.args) != 3 or any(isinstance(a, ast.Starred) for a in v.args):
+        return None
+    f = v.func
+    imp = fi.mod.imports
+    if isinstance(f, ast.Attribute) and isinstance(f.value, ast.Name) and f.attr == 'reduce' and imp.get(f.value.id) == ('functools', None) and \
+            not assigned_value(fi.node, f.value.id) and f.value.id not in fi.params():
+        return tuple(v.args)
+    if isinstance(f, ast.Name) and imp.get(f.id) == ('functools', 'reduce') and not assigned_value(fi.node, f.id) and f.id not in fi.params():
+        return tuple(v.args)
+    return None
+
+
+def wrap_step(app, fi, step):
+    """Is ``step`` the reduce step that puts one more wrapper around the stack: a two-parameter function ``(inner, source)``
+    of the analysed module (or a lambda) whose body is ``return _safe_wrap_wsgi(<name>, source, inner)``?
+    -> True / False; None when the function cannot be followed."""
+    if isinstance(step, ast.Lambda):
+        a, body = step.args, step.body
+    elif isinstance(step, ast.Name) and step.id not in fi.params() and not assigned_value(fi.node, step.id):
+        kind, m, obj = fi.mod.repo.resolve(fi.mod, step.id)
+        if kind != 'func' or m is None or m.external or obj.node.decorator_list:
+            return None
+        a = obj.node.args
+        stmts = _body_sans_doc(obj.node)
+        if len(stmts) != 1 or not isinstance(stmts[0], ast.Return) or stmts[0].value is None:
+            return None
+        body = stmts[0].value
+    else:
+        return None
+    if a.vararg or a.kwarg or a.kwonlyargs or a.defaults or len(a.posonlyargs + a.args) != 2:
+        return None
+    p_inner, p_src = [x.arg for x in a.posonlyargs + a.args]
+    if not (isinstance(body, ast.Call) and call_name(body) == '_safe_wrap_wsgi'):
+        return None
+    wa = wrap_args(app, body)
+    return wa is not None and norm(wa[1]) == p_src and norm(wa[2]) == p_inner
+
+
+def _loop_plan(app, fn, lp, slot):
+    """The plan for a ``for`` loop that contains a wrapping call."""
+    ws = wrap_stores(fn, lp)
+    tgt = lp.target.id if isinstance(lp.target, ast.Name) else None
+    if len(ws) == 1:
+        wa = wrap_args(app, ws[0][1])
+        cur = current_stack_arg(fn, wa[2], ws[0][0], slot) if wa is not None else None
+        ok = wa is not None and tgt is not None and norm(wa[1]) == tgt and cur is not None
+        if ok:
+            # the loop body is that store (and the temporaries naming its value / the stack it wraps), nothing that skips or repeats a middleware
+            allowed = set(id(x) for x in [ws[0][0]] + ws[0][2] + cur)
+            ok = all(id(b) in allowed for b in lp.body) and not lp.orelse
+        return WrapPlan(fn, 'loop', lp, lp.iter, ok, [ws[0][0]])
+    if ws:
+        return WrapPlan(fn, 'loop', lp, lp.iter, False, [w[0] for w in ws])
+    # no store inside the loop: the stack is accumulated in a local and stored afterwards
+    accs = [b for b in lp.body if isinstance(b, ast.Assign) and len(b.targets) == 1 and isinstance(b.targets[0], ast.Name) and
+            isinstance(b.value, ast.Call) and call_name(b.value) == '_safe_wrap_wsgi']
+    if len(accs) != 1:
+        return WrapPlan(fn, 'accumulate', lp, lp.iter, False, [])
+    acc = accs[0].targets[0].id
+    wa = wrap_args(app, accs[0].value)
+    ok = wa is not None and tgt is not None and tgt != acc and norm(wa[1]) == tgt and norm(wa[2]) == acc and lp.body == [accs[0]] and not lp.orelse
+    vals = assigned_value(fn.node, acc)
+    inits = [x for x in vals if x[0] is not accs[0]]
+    ok = ok and acc not in fn.params() and len(vals) == 2 and len(inits) == 1 and inits[0][2] is None and isinstance(inits[0][0], ast.Assign) and \
+        norm(inits[0][1]) == 'self.' + slot
+    stores = [st for st in stmts_of(fn.node) if slot_store(st, slot) is not None]
+    mine = [st for st in stores if isinstance(slot_store(st, slot), ast.Name) and slot_store(st, slot).id == acc]
+    ok = ok and len(mine) == 1 and not any(mine[0] is x for x in ast.walk(lp))
+    if ok:
+        cfg = cfg_of(fn)
+        i_nodes, l_nodes, s_nodes = set(cfg.nodes_of(inits[0][0])), set(cfg.nodes_of(lp)), set(cfg.nodes_of(mine[0]))
+        ok = bool(i_nodes and l_nodes and s_nodes) and cfg.must_pass(i_nodes, cfg.entry, l_nodes) and cfg.must_pass(l_nodes, cfg.entry, s_nodes) and \
+            not ((l_nodes | i_nodes) & cfg.reach([m for n in s_nodes for m in cfg.succ[n]])) and \
+            not (i_nodes & cfg.reach([m for n in l_nodes for m in cfg.succ[n]], avoid=s_nodes)) and \
+            slot_untouched_between(fn, i_nodes, s_nodes, slot)
+    return WrapPlan(fn, 'accumulate', lp, lp.iter, bool(ok), mine)
+
+
+def _plans_in(app, fn, slot):
+    out = []
+    for lp in _wrap_loops(fn):
+        if not isinstance(lp, ast.For):
+            out.append(WrapPlan(fn, 'while', lp, None, False, []))
+        else:
+            out.append(_loop_plan(app, fn, lp, slot))
+    for st in stmts_of(fn.node):
+        v = slot_store(st, slot)
+        if v is None:
+            continue
+        v, temps = through_temps(fn, v)
+        rc = reduce_call(fn, v)
+        if rc is None:
+            continue
+        step = wrap_step(app, fn, rc[0])
+        if step is None:
+            raise AnalysisError('%s: the step function of the reduce that builds the WSGI stack (%s) cannot be followed' % (fn.qualname, short(rc[0])))
+        cur = current_stack_arg(fn, rc[2], st, slot)
+        loops_around = False
+        cur_ = fn.mod.parents.get(st)
+        while cur_ is not None and cur_ is not fn.node:
+            if isinstance(cur_, (ast.For, ast.While)):
+                loops_around = True
+            cur_ = fn.mod.parents.get(cur_)
+        out.append(WrapPlan(fn, 'reduce', st, rc[1], bool(step) and cur is not None and not loops_around, [st]))
+    return out
+
+
+def wrap_plan(app, ai, slot='_dispatch_wsgi'):
+    """The construct that applies the middlewares' wrappers: in ``__init__`` itself, or in a method of the class that
+    ``__init__`` calls as ``self.m(...)`` (then ``site`` is that call's statement and ``env`` binds the method's parameters
+    to the argument expressions)."""
+    plans = _plans_in(app, ai, slot)
+    if not plans:
+        for c in walk_body(ai.node):
+            if isinstance(c, ast.Call) and isinstance(c.func, ast.Attribute) and isinstance(c.func.value, ast.Name) and c.func.value.id == 'self' \
+                    and ai.cls is not None and c.func.attr in ai.cls.methods and c.func.attr != 'set_error_handler':
+                m = ai.cls.methods[c.func.attr]
+                for p in _plans_in(app, m, slot):
+                    ps = m.params()[1:]
+                    if any(isinstance(a, ast.Starred) for a in c.args) or any(k.arg is None for k in c.keywords):
+                        raise AnalysisError('wrapping helper %s is called with */** arguments' % m.qualname)
+                    p.env = dict(zip(ps, c.args))
+                    for k in c.keywords:
+                        p.env[k.arg] = k.value
+                    p.site = stmt_of(app, c)
+                    plans.append(p)
+    if not plans:
         raise AnalysisError('no loop applying _safe_wrap_wsgi to the middlewares found in Application.__init__ or a method it calls')
-    raise AnalysisError('several methods called by Application.__init__ apply _safe_wrap_wsgi in a loop')
+    if len(plans) > 1:
+        if all(p.fn is ai for p in plans):
+            p = plans[0]
+            p.each_once = False         # several wrapping constructs in the constructor: a middleware is wrapped more than once
+            return p
+        raise AnalysisError('several methods called by Application.__init__ apply _safe_wrap_wsgi in a loop')
+    if plans[0].form == 'while':
+        raise AnalysisError('the middleware wrapping loop is a while loop: its iteration order is not followed')
+    return plans[0]
+
+
+def wrapping_store(app, fi, st, slot='_dispatch_wsgi'):
+    """Does statement ``st`` of method ``fi`` store into ``self.<slot>`` a wrapping of the slot's current value -- one of the
+    shapes above (the call form also outside any loop, as in set_error_handler)?"""
+    v = slot_store(st, slot)
+    if v is None:
+        return False
+    v, temps = through_temps(fi, v)
+    if isinstance(v, ast.Call) and call_name(v) == '_safe_wrap_wsgi':
+        wa = wrap_args(app, v)
+        return wa is not None and current_stack_arg(fi, wa[2], st, slot) is not None
+    rc = reduce_call(fi, v)
+    if rc is not None:
+        return bool(wrap_step(app, fi, rc[0])) and current_stack_arg(fi, rc[2], st, slot) is not None
+    if isinstance(v, ast.Name):
+        for lp in _wrap_loops(fi):
+            if isinstance(lp, ast.For):
+                p = _loop_plan(app, fi, lp, slot)
+                if p.form == 'accumulate' and p.each_once and any(st is x for x in p.stores):
+                    return True
+    return False
 
 
 def check_wrap_order(rep, app):
     ai = app.func('Application.__init__')
     acfg = cfg_of(ai)
-    lf, loops, site, env = find_wrap_loop(app, ai)
-    if len(loops) == 1 and not isinstance(loops[0], ast.For):
-        raise AnalysisError('the middleware wrapping loop is a %s loop: its iteration order is not followed' % type(loops[0]).__name__.lower())
+    plan = wrap_plan(app, ai)
+    lf, site, env = plan.fn, plan.site, plan.env
 
     def resolve_src(e):
         e = deref(lf, e)
         if isinstance(e, ast.Name) and e.id in env:      # parameter of an extracted method: the caller's argument
             e = deref(ai, env[e.id])
         return e
-    ok = len(loops) == 1
+    it = resolve_src(plan.iter)
+    inner = reversal_of(it)
+    if inner is None:
+        # some other arrangement of the collected middlewares is a verdict; an iterable of unknown origin is not
+        base = it
+        while True:
+            if isinstance(base, ast.Call) and isinstance(base.func, ast.Name) and base.func.id in ('list', 'tuple', 'iter', 'sorted', 'reversed') and base.args:
+                base = resolve_src(base.args[0])
+            elif isinstance(base, ast.Subscript) and isinstance(base.slice, ast.Slice):
+                base = resolve_src(base.value)
+            else:
+                break
+        if not (isinstance(base, ast.Call) and call_name(base) == '_get_all_middlewares'):
+            raise AnalysisError('the middleware wrapping loop iterates %s: not derived from the collected middlewares in a way that is followed' % short(plan.iter))
+    ok = inner is not None
     if ok:
-        lp = loops[0]
-        it = resolve_src(lp.iter)
-        inner = reversal_of(it)
-        if inner is None:
-            # some other arrangement of the collected middlewares is a verdict; an iterable of unknown origin is not
-            base = it
-            while True:
-                if isinstance(base, ast.Call) and isinstance(base.func, ast.Name) and base.func.id in ('list', 'tuple', 'iter', 'sorted', 'reversed') and base.args:
-                    base = resolve_src(base.args[0])
-                elif isinstance(base, ast.Subscript) and isinstance(base.slice, ast.Slice):
-                    base = resolve_src(base.value)
-                else:
-                    break
-            if not (isinstance(base, ast.Call) and call_name(base) == '_get_all_middlewares'):
-                raise AnalysisError('the middleware wrapping loop iterates %s: not derived from the collected middlewares in a way that is followed' % short(lp.iter))
-        ok = inner is not None
-        if ok:
-            src = resolve_src(inner)
-            gps = app.func('_get_all_middlewares').params()
-            extra = [norm(a) for a in list(src.args[1:]) + [k.value for k in src.keywords if k.arg != gps[0]]] if isinstance(src, ast.Call) else []
-            # the routes, optionally together with the application's own middleware list (R13.d judges that part)
-            ok = isinstance(src, ast.Call) and call_name(src) == '_get_all_middlewares' and \
-                norm(argn(src, gps[0], 0)) == 'self.routes' and all(x == 'self.middlewares' for x in extra) and len(extra) <= 1
-        ws = wrap_stores(lf, lp)
-        wa = wrap_args(app, ws[0][1]) if len(ws) == 1 else None
-        cur = current_stack_arg(lf, wa[2], ws[0][0]) if wa is not None else None
-        ok = ok and wa is not None and isinstance(lp.target, ast.Name) and norm(wa[1]) == lp.target.id and cur is not None
-        if ok:
-            # the loop body is that store (and the temporaries naming its value / the stack it wraps), nothing that skips or repeats a middleware
-            allowed = set(id(x) for x in [ws[0][0]] + ws[0][2] + cur)
-            ok = all(id(b) in allowed for b in lp.body) and not lp.orelse
+        src = resolve_src(inner)
+        gps = app.func('_get_all_middlewares').params()
+        extra = [norm(a) for a in list(src.args[1:]) + [k.value for k in src.keywords if k.arg != gps[0]]] if isinstance(src, ast.Call) else []
+        # the routes, optionally together with the application's own middleware list (R13.d judges that part)
+        ok = isinstance(src, ast.Call) and call_name(src) == '_get_all_middlewares' and \
+            norm(argn(src, gps[0], 0)) == 'self.routes' and all(x == 'self.middlewares' for x in extra) and len(extra) <= 1
+    ok = ok and plan.each_once
     rep.check('R13.b', fkey(ai, 'wrap loop'), ok,
               'wrappers are applied innermost-first over the reverse of all middlewares, each wrapping the current stack: the first middleware ends up outermost' if ok else
-              'Application.__init__ does not wrap self._dispatch_wsgi over reversed(_get_all_middlewares(self.routes))', app, loops[0] if lf is ai else site)
+              'Application.__init__ does not wrap self._dispatch_wsgi over reversed(_get_all_middlewares(self.routes))', app, plan.node if lf is ai else site)
     seh = [stmt_of(app, c) for c in walk_body(ai.node) if isinstance(c, ast.Call) and norm(c.func) == 'self.set_error_handler']
     ok = len(seh) == 1 and acfg.must_pass(acfg.nodes_of(seh[0]), acfg.entry, acfg.nodes_of(site)) and \
         not (set(acfg.nodes_of(seh[0])) & acfg.reach(acfg.nodes_of(site)))
@@ -510,9 +705,11 @@ def check_wrap_order(rep, app):
     rep.check('R13.b', fkey(ai, 'wrappers after routes'), ok, 'wrappers are collected after the constructor\'s routes are bound' if ok else
               'the wrapping loop does not follow the binding of routes', app, ai.node)
     sh = app.func('Application.set_error_handler')
-    w = wrap_stores(sh)
-    wa = wrap_args(app, w[0][1]) if len(w) == 1 else None
-    ok = wa is not None and current_stack_arg(sh, wa[2], w[0][0]) is not None
+    w = [st for st in stmts_of(sh.node) if slot_store(st) is not None]
+    ok = len(w) == 1 and wrapping_store(app, sh, w[0])
+    if ok:
+        v, _ = through_temps(sh, slot_store(w[0]))
+        ok = isinstance(v, ast.Call) and call_name(v) == '_safe_wrap_wsgi'
     rep.check('R13.b', fkey(sh), ok, 'set_error_handler wraps the current stack with the handler\'s wsgi_wrapper' if ok else
               'set_error_handler does not wrap self._dispatch_wsgi', app, sh.node)
 
@@ -627,6 +824,9 @@ def check_collect_middlewares(rep, app):
             all(len(a.args) == 1 and isinstance(a.args[0], ast.Name) and not a.keywords for a in apps)
         if ok:
             nested, flat = [], []
+            # position in the function text as the rules see it (statements produced by the front-end out of one source
+            # line -- a dissolved helper, a split chain(...) loop -- share a line number: the order is that of the tree)
+            seq = dict((id(s_), i) for i, s_ in enumerate(stmts_of(gm.node)))
             for a in apps:
                 el = a.args[0].id
                 st = stmt_of(app, a)
@@ -637,7 +837,7 @@ def check_collect_middlewares(rep, app):
                 dedup = has_cond(cs, lambda t: norm(t) == '%s not in %s' % (el, rv), True) or \
                     has_cond(cs, lambda t: norm(t) == '%s in %s' % (el, rv), False)
                 for k, lv in enumerate(_expand_group_walks(gm, st, levels)):
-                    (nested if len(lv) == 2 else flat).append((a, el, st, lv, dedup, (st.lineno, k)))
+                    (nested if len(lv) == 2 else flat).append((a, el, st, lv, dedup, (seq[id(st)], k)))
             ok = len(nested) == 1 and all(w_[4] for w_ in nested + flat)
             if ok:
                 a, el, st, levels = nested[0][:4]
@@ -993,7 +1193,7 @@ def run(rep):
     st = repo.mod(STATIC)
     rep.decide('R13.a exactly one WSGI delegate per path with untouched (environ, start_response); R13.b wrapper order; '
                'R13.c opened files handed to the response; R13.d application-level middlewares are wrapper sources '
-               'independently of the routes')
+               'independently of the routes; R13.e the wrapped entry point is never removed or replaced after construction')
     rep.decline('status-line / header validity, close() semantics, bytes-ness of bodies: inside werkzeug')
     rep.assume('werkzeug BaseResponse.__call__ calls start_response exactly once before yielding body bytes and omits the body for HEAD')
     rep.rule('R13.a', 'CFG: every path of _dispatch_wsgi ends in one delegate call with the original parameters')
@@ -1006,6 +1206,10 @@ def run(rep):
     rep.rule('R13.d', 'the wrapper sources contain the application-level middlewares whether or not a route is bound')
     from .c13_wrappers import check_app_level_wrappers
     _group(rep, check_app_level_wrappers, rep, 'R13.d')
+    rep.rule('R13.e', 'the WSGI entry point is only ever re-bound to a wrapping of its current value, by the application class; no spelling '
+                      '(del, setattr / delattr, __dict__ / vars()) removes or replaces it')
+    from .c13_entry import check_entry_point
+    _group(rep, check_entry_point, rep, 'R13.e')
     from .chain import check_middleware_identity
     _group(rep, check_middleware_identity, rep, 'R13.b')
     _group(rep, check_safe_wrap, rep, app)
